@@ -262,6 +262,62 @@ func vrNafCheck(out []int, s []byte, w int) string {
 	return ""
 }
 
+// vrCaseDecomposeNAFSmall: EXHAUSTIVE over all inputs of a short width: every 16-bit integer (n = 17), 20-bit when
+// n_per_case >= 1000 (n = 21), for every window width 1..7. The recoding acts locally (it looks at w+1 bits and a
+// carry), so all local configurations including the byte-boundary cases of getBits occur; uses int64 arithmetic.
+func vrCaseDecomposeNAFSmall(c *vrCase) {
+	bitsN := 16
+	if c.n >= 1000 {
+		bitsN = 20
+	}
+	nb := (bitsN + 7) / 8
+	n := bitsN + 1
+	out := make([]int, n)
+	s := make([]byte, nb)
+	for w := 1; w <= 7; w++ {
+		for v := 0; v < 1<<uint(bitsN); v++ {
+			for i := range out {
+				out[i] = 0
+			}
+			for i := 0; i < nb; i++ {
+				s[nb-1-i] = byte(v >> uint(8*i))
+			}
+			bad := ""
+			if p := vrTry(func() { DecomposeNAF(out, s, n, w) }); p != "" {
+				bad = p
+			} else {
+				var sum int64
+				for j := n - 1; j >= 0; j-- {
+					sum = sum*2 + int64(out[j])
+				}
+				if sum != int64(v) {
+					bad = fmt.Sprintf("sum=%d", sum)
+				}
+				for j, d := range out {
+					if d == 0 || bad != "" {
+						continue
+					}
+					if d&1 == 0 || d >= 1<<uint(w) || -d >= 1<<uint(w) {
+						bad = fmt.Sprintf("bad digit out[%d]=%d", j, d)
+					}
+					for k := j + 1; k <= j+w && k < n; k++ {
+						if out[k] != 0 {
+							bad = fmt.Sprintf("out[%d]=%d followed by out[%d]=%d", j, d, k, out[k])
+						}
+					}
+				}
+			}
+			c.runs++
+			if bad != "" {
+				c.check(false, fmt.Sprintf(`{"s":"%s","n":%d,"w":%d}`, vrHex(s), n, w), bad+" out="+fmt.Sprint(out), fmt.Sprintf("valid %d-NAF of %d", w, v))
+				if c.fails > 5 {
+					return
+				}
+			}
+		}
+	}
+}
+
 func vrCaseDecomposeNAF(c *vrCase) {
 	one := func(s []byte, w int) {
 		out := make([]int, 257)
@@ -341,5 +397,6 @@ func TestVerifReplay(t *testing.T) {
 	e := vrNewEnv(t)
 	e.run("ConstantTimeCmp", vrCaseConstantTimeCmp)
 	e.run("DecomposeNAF", vrCaseDecomposeNAF)
+	e.run("DecomposeNAF.exhaustive-small", vrCaseDecomposeNAFSmall)
 	e.finish()
 }
